@@ -168,6 +168,10 @@ std::unique_ptr<trompeloeil::expectation> vp_build_forbid(vp_M& m)
 {
   return NAMED_FORBID_CALL(m, f(trompeloeil::_));
 }
+std::unique_ptr<trompeloeil::expectation> vp_build_full(vp_M& m, trompeloeil::sequence& s1, trompeloeil::sequence& s2, int& g)
+{
+  return NAMED_REQUIRE_CALL(m, f(trompeloeil::_)).WITH(_1 > 0).WITH(_1 < 9).LR_SIDE_EFFECT(g = g * 2).LR_SIDE_EFFECT(g = g + 1).TIMES(2, 5).IN_SEQUENCE(s1, s2).LR_RETURN(_1 + g);
+}
 void vp_build_objects()
 {
   vp_M m; trompeloeil::sequence s;
